@@ -64,6 +64,9 @@ CHECKS = {
  "C20": ("INPUT", "exploration", "4 (C20)",
          "All batches of <= 5 (6) spans over 5 size classes, boundary walks of single spans and pairs across the 8000-byte limit, long batches with oversize spans at front/middle/end; oracle: every datagram below 8000 bytes and well-formed, received span ids = input minus spans that do not fit alone (decided differentially), in order, none twice, report() returns within the deadline.",
          "exhaustive enumeration of a bounded input space with a differential oracle"),
+ "C15": ("TWIN", "exploration", "4 (C15)",
+         "Differential enumeration over a grid of twin functions generated from the same tokens with and without #[trace] (sync/async/enter_on_poll, generic, lifetimes, &self/&mut self/self, async_trait, native async-in-trait; default name / name= / short_name; literal, formatted and escaped properties; value, early return, ?, panic, &mut mutation, move, borrowed return, locals with Drop, nested annotated calls) x arguments {0,1,2} x pending polls {0,1,2} x {under a root, inside a local span, no local parent}: return value / error / panic payload and side-effect log must agree, and the annotated twin must record exactly the specified span (name, properties, parent) or nothing without a local parent.",
+         "exhaustive enumeration of a fixed grid of twin programs x small argument domain with a differential oracle"),
 }
 
 props = [json.loads(l) for l in open("properties.jsonl")]
@@ -82,6 +85,8 @@ m = {
  "engines": [
    {"name": "INPUT", "path": "harness/vx-codec, harness/vx-report", "serves_properties": ["C12", "C19", "C20"],
     "kind_free_text": "bounded-exhaustive input enumeration through the public API against independent reference decoders (traceparent parser, Thrift compact, MessagePack), loopback UDP/HTTP sinks, capturing OpenTelemetry exporter"},
+   {"name": "TWIN", "path": "harness/vx-macro", "serves_properties": ["C15"],
+    "kind_free_text": "differential execution of annotated/unannotated twin functions generated by one macro_rules expansion, over a small argument domain, with a capturing reporter"},
    {"name": "SCHED", "path": "harness/vx-core, harness/vx-sched", "serves_properties": sorted(k for k, v in CHECKS.items() if v[0] in ("SCHED", "SEQ")),
     "kind_free_text": "hand-rolled stateless model checker: real OS threads serialised by a baton, scheduling points from cfg(fastrace_verif) hooks in fastrace, depth-first enumeration of all schedules up to a preemption bound (or all interleavings for small sequential programs), reference model + oracles in plain Rust, 16 worker processes"},
  ],
@@ -106,6 +111,6 @@ for p in props:
             "technique": tech,
         })
     else:
-        m["not_applicable"].append({"property_id": i, "reason": "check under construction in this session; not claimed yet"})
+        m["not_applicable"].append({"property_id": i, "reason": "not claimed"})
 json.dump(m, open("MANIFEST.json", "w"), indent=1)
 print("claimed:", [c["property_id"] for c in m["checks"]])
